@@ -165,10 +165,11 @@ def written(hist, op, o):
 class _Env:
     """One model with the pinned argument(s), the free variable T and the atom under test."""
 
-    def __init__(self, fe, variant, atom, use_vec):
+    def __init__(self, fe, variant, atom, use_vec, parity=0):
         import rsome as rso
         from rsome import ro, dro
         self.fe, self.atom = fe, atom
+        self.scale_offset = 0.0
         spec = ATOMS[atom]
         self.is_epw = spec['cls'] in ('epwmax', 'epwmin')
         if fe == 'ro':
@@ -208,7 +209,10 @@ class _Env:
         else:
             self.pins.append(x == (np.array(a, dtype=float) if vec else float(a[0])))
             if s is not None:
-                self.pins.append(s == SCALE)
+                # the scale is a VARIABLE pinned to SCALE, or (every other case) an affine expression s + 1/2 with s pinned
+                # to SCALE - 1/2: the constant term of an affine scale must survive the front end's substitutions
+                self.scale_offset = 0.5 if parity % 2 else 0.0
+                self.pins.append(s == SCALE - self.scale_offset)
             self._arg = x
 
     def atom_expr(self):
@@ -256,9 +260,9 @@ class _Env:
         if atom == 'log':
             return rso.log(x)
         if atom == 'pexp':
-            return rso.pexp(x, self.args[1])
+            return rso.pexp(x, self.args[1] + self.scale_offset if self.scale_offset else self.args[1])
         if atom == 'plog':
-            return rso.plog(x, self.args[1])
+            return rso.plog(x, self.args[1] + self.scale_offset if self.scale_offset else self.args[1])
         if atom == 'pexp_cs':
             return rso.pexp(x, SCALE)
         if atom == 'plog_cs':
@@ -361,7 +365,8 @@ def _one(rec, atom, variant):
     res = dict(findings=findings, drift=drift, notes=notes, solved=False, inconclusive=0, stage=None,
                accept=accept, dont_care=dont_care)
 
-    env = _Env(fe, variant, atom, use_vec)      # harness errors here are machinery errors
+    import zlib
+    env = _Env(fe, variant, atom, use_vec, parity=zlib.crc32(text.encode()))      # harness errors here are machinery errors
     m, t = env.m, env.t
     # -------------------------------------------------------------------------- build + hand over
     stage, exc, where = 'ok', None, None
